@@ -709,3 +709,196 @@ Theorem set_duration_total : forall i k cs new d d',
   set_duration e new d = Ok d' ->
   Z.abs (idur e d' - new) * 2 <= Z.of_nat (length (leaf_positions e)).
 Proof. intros i k cs new d d' Hne HR e old _. apply set_duration_total_gen; auto. Qed.
+
+(* ------------------------------------------------------------------ *)
+(* 5. a checker for consistency, examples                              *)
+(* ------------------------------------------------------------------ *)
+Definition ikind_eqb (a b : ikind) : bool :=
+  match a, b with IKSeq, IKSeq | IKSim, IKSim => true | _, _ => false end.
+Fixpoint iev_eqb (a b : iev) : bool :=
+  match a, b with
+  | ILeaf i, ILeaf j => Nat.eqb i j
+  | INode i k cs, INode j k' cs' =>
+      Nat.eqb i j && ikind_eqb k k' &&
+      (fix go l l' := match l, l' with
+                      | [], [] => true
+                      | x :: r, y :: r' => iev_eqb x y && go r r'
+                      | _, _ => false
+                      end) cs cs'
+  | _, _ => false
+  end.
+Definition iev_list_eqb := fix go (l l' : list iev) : bool :=
+  match l, l' with
+  | [], [] => true
+  | x :: r, y :: r' => iev_eqb x y && go r r'
+  | _, _ => false
+  end.
+Lemma iev_eqb_node i k cs j k' cs' :
+  iev_eqb (INode i k cs) (INode j k' cs') = Nat.eqb i j && ikind_eqb k k' && iev_list_eqb cs cs'.
+Proof. reflexivity. Qed.
+
+Lemma iev_eqb_eq : forall a b, iev_eqb a b = true -> a = b.
+Proof.
+  induction a as [i|i k cs IH] using iev_ind'; intros [j|j k' cs'] H; try discriminate.
+  - simpl in H. apply Nat.eqb_eq in H. congruence.
+  - rewrite iev_eqb_node in H. apply andb_true_iff in H. destruct H as [H H3].
+    apply andb_true_iff in H. destruct H as [H1 H2].
+    apply Nat.eqb_eq in H1. subst j.
+    assert (k = k') by (destruct k, k'; auto; discriminate). subst k'.
+    f_equal. revert cs' H3. induction cs as [|c r IHr]; intros [|c' r'] H3; try discriminate; auto.
+    inversion IH as [|? ? Hc Hr]; subst.
+    simpl in H3. apply andb_true_iff in H3. destruct H3 as [E1 E2].
+    f_equal; [apply Hc; auto|apply IHr; auto].
+Qed.
+
+Definition consistentb (e : iev) : bool :=
+  forallb (fun a => forallb (fun b => implb (Nat.eqb (iid a) (iid b)) (iev_eqb a b)) (subterms e)) (subterms e).
+
+Lemma consistentb_sound e : consistentb e = true -> consistent e.
+Proof.
+  unfold consistentb, consistent. intros H a b Ha Hb E.
+  rewrite forallb_forall in H. specialize (H a Ha). rewrite forallb_forall in H. specialize (H b Hb).
+  apply Nat.eqb_eq in E. rewrite E in H. simpl in H. apply iev_eqb_eq; auto.
+Qed.
+
+(* a DAG-shaped tree: leaf 1 at two depths (three positions), leaf 2 twice below one object and once
+   more elsewhere, the sub-container 10 referenced three times (twice at depth 1, once at depth 2) *)
+Definition ex_sub : iev := INode 10 IKSeq [ILeaf 1; ILeaf 2].
+Definition ex_mid : iev := INode 11 IKSeq [ex_sub; ILeaf 3; ILeaf 2].
+Definition ex_root : iev := INode 20 IKSim [ex_sub; ILeaf 1; ex_mid; ex_sub; ILeaf 4].
+Definition ex_heap : heap (option Z) :=
+  hupd (hupd (hupd (hupd (fun _ => None) 1 (Some 10)) 2 (Some 20)) 3 None) 7 (Some 70).
+Definition ex_g (o : option Z) : Z := match o with Some v => v + 5 | None => 0 end.
+
+Example ex_consistent : consistent ex_root.
+Proof. apply consistentb_sound. vm_compute. reflexivity. Qed.
+
+Example ex_positions :
+  leaf_positions ex_root = [1; 2; 1; 1; 2; 3; 2; 1; 2; 4]%nat /\
+  all_ids ex_root = [20; 10; 1; 2; 1; 11; 10; 1; 2; 3; 2; 10; 1; 2; 4]%nat.
+Proof. vm_compute. split; reflexivity. Qed.
+
+(* g = old + 5 is not idempotent: every leaf is incremented exactly once although leaf 1 has four
+   positions; the leaf 7 outside the tree keeps its value; undefined leaves follow set_unassigned *)
+Example ex_set_once :
+  let h' := set_parameter true ex_g ex_root ex_heap in
+  map h' [1; 2; 3; 4; 7; 10; 20]%nat = [Some 15; Some 25; Some 0; Some 0; Some 70; None; None] /\
+  let h'' := set_parameter false ex_g ex_root ex_heap in
+  map h'' [1; 2; 3; 4; 7; 10; 20]%nat = [Some 15; Some 25; None; None; Some 70; None; None].
+Proof. vm_compute. split; reflexivity. Qed.
+
+(* the general theorem on this tree *)
+Example ex_set_once_thm : forall su g h,
+  let h' := set_parameter su g ex_root h in
+  (forall j, In j [1; 2; 3; 4]%nat -> h' j = leaf_set su g (h j)) /\
+  (forall j, ~ In j [1; 2; 3; 4]%nat -> h' j = h j).
+Proof.
+  intros su g h. destruct (set_once su g 20%nat IKSim (ichildren ex_root) h ex_consistent) as [A B].
+  split.
+  - intros j Hj. apply A. vm_compute in Hj |- *. tauto.
+  - intros j Hj. apply B. intros Hin. apply Hj. vm_compute in Hin |- *. tauto.
+Qed.
+
+(* a per-position map would have applied the edit four times to leaf 1 *)
+Example ex_naive_differs :
+  let naive := fold_left (fun h j => hupd h j (leaf_set true ex_g (h j))) (leaf_positions ex_root) ex_heap in
+  naive 1%nat = Some 30 /\ set_parameter true ex_g ex_root ex_heap 1%nat = Some 15.
+Proof. vm_compute. split; reflexivity. Qed.
+
+(* consistency is needed: if one identity stands for two different containers the second is skipped
+   and its leaf 3 is not edited *)
+Definition ex_bad : iev := INode 0 IKSeq [INode 1 IKSeq [ILeaf 2]; INode 1 IKSeq [ILeaf 3]].
+Example ex_inconsistent :
+  consistentb ex_bad = false /\
+  In 3%nat (leaf_positions ex_bad) /\
+  set_parameter true ex_g ex_bad (fun _ => Some 1) 3%nat = Some 1 /\
+  set_parameter true ex_g ex_bad (fun _ => Some 1) 2%nat = Some 6.
+Proof. vm_compute. repeat split; auto. Qed.
+
+(* reads: one entry per position; the nested read mirrors the tree *)
+Example ex_reads :
+  get_flat ex_root ex_heap =
+    [Some 10; Some 20; Some 10; Some 10; Some 20; None; Some 20; Some 10; Some 20; None] /\
+  get_parameter_flat true ex_root ex_heap =
+    [Some 10; Some 20; Some 10; Some 10; Some 20; Some 20; Some 10; Some 20] /\
+  get_nested ex_root ex_heap =
+    PT [PT [PV (Some 10); PV (Some 20)]; PV (Some 10);
+        PT [PT [PV (Some 10); PV (Some 20)]; PV None; PV (Some 20)];
+        PT [PV (Some 10); PV (Some 20)]; PV None] /\
+  get_parameter_nested true ex_root ex_heap =
+    [PT [PV (Some 10); PV (Some 20)]; PV (Some 10);
+     PT [PT [PV (Some 10); PV (Some 20)]; PV (Some 20)];
+     PT [PV (Some 10); PV (Some 20)]].
+Proof. vm_compute. repeat split; reflexivity. Qed.
+
+(* durations: leaves 1, 2, 3, 4 last 3, 5, 7, 2 ticks; the simultaneous root lasts
+   max (8, 3, 8 + 7 + 5, 8, 2) = 20; setting it to 50 rescales every distinct leaf once by 5/2
+   (half-tick cases to even) and the root lasts 20 + 18 + 12 = 50; setting it to 7 gives 7 *)
+Definition ex_durs : heap Z := hupd (hupd (hupd (hupd (fun _ => 0) 1 3) 2 5) 3 7) 4 2.
+Example ex_set_duration :
+  idur ex_root ex_durs = 20 /\
+  match set_duration ex_root 50 ex_durs with
+  | Ok d' => map d' [1; 2; 3; 4; 7]%nat = [8; 12; 18; 5; 0] /\ idur ex_root d' = 50
+  | Err _ => False
+  end /\
+  match set_duration ex_root 7 ex_durs with
+  | Ok d' => map d' [1; 2; 3; 4; 7]%nat = [1; 2; 2; 1; 0] /\ idur ex_root d' = 7
+  | Err _ => False
+  end /\
+  set_duration (INode 5 IKSeq []) 3 ex_durs = Err ECannotSetDurationOfEmpty.
+Proof. vm_compute. repeat split; reflexivity. Qed.
+
+(* the hypotheses of the duration theorems are satisfiable on this tree *)
+Example ex_set_duration_thm : forall d',
+  set_duration ex_root 50 ex_durs = Ok d' ->
+  (forall j, In j [1; 2; 3; 4]%nat -> d' j = rescale 20 50 (ex_durs j)) /\
+  Z.abs (idur ex_root d' - 50) * 2 <= 10.
+Proof.
+  intros d' H. split.
+  - destruct (set_duration_leaves 20%nat IKSim (ichildren ex_root) 50 ex_durs d') as [A _]; auto.
+    + discriminate.
+    + exact ex_consistent.
+    + vm_compute. discriminate.
+    + intros j Hj. change 20 with (idur ex_root ex_durs). apply A. vm_compute in Hj |- *. tauto.
+  - apply (set_duration_total_gen 20%nat IKSim (ichildren ex_root) 50 ex_durs d'); auto.
+    + discriminate.
+    + exact ex_consistent.
+    + vm_compute. reflexivity.
+    + lia.
+Qed.
+
+(* old duration 0: the share is new / (number of DIRECT children) for every distinct leaf, so a nested
+   container does not end up with the requested duration (6 requested, 9 obtained) *)
+Example ex_set_duration_zero :
+  let e := INode 0 IKSeq [INode 1 IKSeq [ILeaf 2; ILeaf 3]; ILeaf 4] in
+  match set_duration e 6 (fun _ => 0) with
+  | Ok d' => map d' [2; 3; 4]%nat = [3; 3; 3] /\ idur e d' = 9
+  | Err _ => False
+  end.
+Proof. vm_compute. split; reflexivity. Qed.
+
+Print Assumptions apply_once_g_spec.
+Print Assumptions apply_once_spec.
+Print Assumptions set_once.
+Print Assumptions nodup_consistent.
+Print Assumptions set_once_nodup.
+Print Assumptions get_flat_length.
+Print Assumptions get_flat_nth.
+Print Assumptions get_parameter_flat_filter.
+Print Assumptions get_parameter_flat_in.
+Print Assumptions get_nested_node.
+Print Assumptions get_nested_mirror.
+Print Assumptions get_parameter_nested_false.
+Print Assumptions get_parameter_nested_true.
+Print Assumptions apply_once_dur_spec.
+Print Assumptions set_duration_empty.
+Print Assumptions set_duration_leaves.
+Print Assumptions set_duration_zero_leaves.
+Print Assumptions rescale_near.
+Print Assumptions idur_approx.
+Print Assumptions set_duration_total_gen.
+Print Assumptions set_duration_total.
+Print Assumptions consistentb_sound.
+Print Assumptions ex_consistent.
+Print Assumptions ex_set_once_thm.
+Print Assumptions ex_set_duration_thm.
